@@ -44,6 +44,22 @@ impl Zip64CentralDirectoryEnd {
 //@use write_central_directory_header nobody
 //@use validate_extra_data nobody
 impl<W: Write + io::Seek> GenericZipWriter<W> {
+// ASSUMED (Verus has no unsizing cast to `&mut dyn Write`): ref_mut hands out the installed writer; whatever is
+// written through it, the installed method stays and the sink below stays usable (every Write operation
+// preserves g_inv).  Content written through it is not tracked here (MaybeEncrypted::write is proved in U7a).
+//@fn gzw_ref_mut
+//@| fn: src/write.rs | impl<W: Write + io::Seek> GenericZipWriter<W> | fn ref_mut
+//@| attr: #[verifier::external_body]
+//@| ret: r
+//@| ensures:
+//@|     ((*old(self)) is Closed) <==> r is None,
+//@|     gzw_method(*final(self)) == gzw_method(*old(self)),
+//@|     !((*old(self)) is Closed) ==> (gzw_sink(*old(self)) is Unencrypted) == (gzw_sink(*final(self)) is Unencrypted),
+//@|     !((*old(self)) is Closed) && gzw_sink(*old(self)).g_inv() ==> gzw_sink(*final(self)).g_inv(),
+//@|     !((*old(self)) is Closed) ==> dev_step(&gzw_sink(*old(self)), &gzw_sink(*final(self))),
+//@|     !((*old(self)) is Closed) && gzw_sink(*old(self)).g_dev() && !gzw_sink(*final(self)).g_fault()
+//@|         ==> gzw_sink(*final(self)).g_pos() >= gzw_sink(*old(self)).g_pos(),
+//@end
 //@use gzw_switch_to nobody
 //@use gzw_is_closed nobody
 //@use gzw_current_compression nobody
@@ -62,11 +78,13 @@ impl<W: Write> zipcrypto::ZipCryptoWriter<W> {
 //@| mutself: yes
 //@| requires:
 //@|     self.buffer@.len() >= 12,
+//@|     dev_ok(&self.writer),
 //@| ensures:
 //@|     r matches Ok(w) ==> dev_step(&self.writer, &w),
 //@end
 }
 //@item src/write.rs | struct ZipRawValues
+//@item src/types.rs | const DEFAULT_VERSION
 
 pub mod zip_writer {
     use super::*;
@@ -78,15 +96,19 @@ pub use zip_writer::ZipWriter;
 pub open spec fn files_ok(files: Seq<ZipFileData>) -> bool {
     forall|i: int| 0 <= i < files.len() ==> (#[trigger] files[i]).last_modified_time.year >= 1980
 }
+pub open spec fn zw_faulted<W: Write + io::Seek>(w: &ZipWriter<W>) -> bool {
+    gzw_plain(w.inner) && gzw_plain_sink(w.inner).g_fault()
+}
 pub open spec fn maybe_ok<W: Write + io::Seek>(m: MaybeEncrypted<W>) -> bool { m.g_inv() }
 pub open spec fn zw_wf<W: Write + io::Seek>(w: &ZipWriter<W>) -> bool {
     &&& files_ok(w.files@)
     &&& (w.writing_to_file ==> w.files@.len() > 0)
     &&& (w.writing_to_extra_field ==> w.writing_to_file && !w.writing_raw && (gzw_plain(w.inner) || w.inner is Closed)
             && w.files@.last().header_start + 30 <= MAX_OFF)
-    // while local extra data is being collected the (unfaulted) sink stays parked at the entry's data start
-    &&& (w.writing_to_extra_field && !w.writing_to_central_extra_field_only && gzw_plain(w.inner) && !gzw_plain_sink(w.inner).g_fault()
-            ==> w.files@.last().data_start.0.g_val() == gzw_plain_sink(w.inner).g_pos())
+    // while local extra data is being collected over an unfaulted sink, the sink has not moved back behind the
+    // recorded data start (it is parked there; only Write operations, which advance, can reach it meanwhile)
+    &&& (w.writing_to_extra_field && !w.writing_to_central_extra_field_only && gzw_plain(w.inner) && !zw_faulted(w)
+            ==> w.files@.last().data_start.0.g_val() <= gzw_plain_sink(w.inner).g_pos())
     &&& (w.writing_to_central_extra_field_only ==> w.writing_to_extra_field)
     &&& (!(w.inner is Closed) ==> maybe_ok(gzw_sink(w.inner)))
     &&& (w.inner matches GenericZipWriter::Storer(MaybeEncrypted::Encrypted(_)) ==> w.files@.len() > 0)
@@ -104,6 +126,30 @@ impl<W: Write + io::Seek> ZipWriter<W> {
 //@use zw_set_raw_comment
 //@use zw_finish_file
 //@use zw_end_extra_data
+//@use zw_start_entry
 }
+// ZipWriter itself is a Write adapter: usable while its representation invariant holds
+pub open spec fn zw_ready<W: Write + io::Seek>(w: &ZipWriter<W>) -> bool {
+    zw_wf(w) && zw_room(w) && w.stats.bytes_written <= 0x7fff_ffff_ffff_ffff
+}
+impl<W: Write + io::Seek> Dev for ZipWriter<W> {
+    open spec fn g_ready(&self) -> bool { zw_ready(self) }
+    open spec fn g_dev(&self) -> bool { false }
+    open spec fn g_bytes(&self) -> Seq<u8> { Seq::empty() }
+    open spec fn g_pos(&self) -> int { 0 }
+    open spec fn g_fault(&self) -> bool { false }
+}
+//@impl src/write.rs | impl<W: Write + io::Seek> Write for ZipWriter<W>
+impl<W: Write + io::Seek> Write for ZipWriter<W> {
+//@use zw_write
+//@use zw_flush
+}
+// T7x in start_entry: `zipwriter.write_all(&crypto_header)` on the buffering ZipCryptoWriter.
+// ASSUMED: write_all is repeated write; ZipCryptoWriter::write (proved in U7a/U10) accepts everything at once.
+#[verifier::external_body]
+fn shim_zc_write_all<W: Write>(z: &mut zipcrypto::ZipCryptoWriter<W>, buf: &[u8]) -> (r: io::Result<()>)
+    ensures r is Ok, final(z).buffer@ == old(z).buffer@ + buf@, final(z).writer == old(z).writer, final(z).keys == old(z).keys
+{ unimplemented!() }
+
 } // verus!
 fn main() {}
